@@ -112,6 +112,11 @@ def run(ctx):
     nbad += explore(ctx, "setop", None, 0, SAFE, "sql.sqlite", cases=setop)
     nbad += explore(ctx, "setop-generic", None, 0, SAFE, "sql.generic", cases=setop)
     nbad += explore(ctx, "forced-shapes", None, 0, SAFE, "sql.sqlite", cases=shaped)
+    # joins whose condition is (or folds to) a constant, every side, joined tables often empty - on both executable targets
+    cj = relgen.const_join_cases(SAFE, variants=8 if quick else 30)
+    ctx.coverage_extra["constant_join_cases"] = len(cj)
+    nbad += explore(ctx, "const-join", None, 0, SAFE, "sql.sqlite", cases=cj)
+    nbad += explore(ctx, "const-join-generic", None, 0, SAFE, "sql.generic", cases=cj)
     nbad += explore(ctx, "safe", random.Random(20240924), 500 if quick else 3000, SAFE, "sql.sqlite")
     nbad += explore(ctx, "safe-generic", random.Random(20240925), 200 if quick else 1500, SAFE, "sql.generic")
     nbad += explore(ctx, "literals+functions", random.Random(20240926), 250 if quick else 2000, RICH, "sql.sqlite")
